@@ -1,1 +1,438 @@
-pub fn run(_run: &mut vf_core::Run) {}
+//! C19 — public coin contract (stateful).
+//!
+//! Histories over {new, reseed, draw<base|quad|cube>, draw_integers, check_leading_zeros} are run on
+//! two real coins (one fed with the generated elements / digests in whatever internal representation
+//! they have, one with the same residues rebuilt canonically) and on `vf_ref::coin::RefCoin` (the
+//! documented construction on top of the reference hashers). Then minimally different histories are
+//! run on fresh real coins and the next four base-field draws must differ.
+
+use std::marker::PhantomData;
+
+use proptest::prelude::*;
+use serde::{Deserialize, Serialize};
+use vf_core::{catch, ensure, CheckResult, Fail, Obs, Run, SubCheck, Tier, X};
+use vf_ref::coin::RefCoin;
+use vf_ref::hashes::Dg;
+use vf_repo::prelude::*;
+use winter_crypto::hashers::{Blake3_192, Blake3_256, Rp62_248, Rp64_256, RpJive64_256, Sha3_256};
+use winter_crypto::{DefaultRandomCoin, RandomCoin, RandomCoinError};
+use winter_math::FieldElement;
+use winter_utils::{Deserializable, Serializable};
+
+use crate::ha::{digest_from_words, pkey, HA};
+
+#[derive(Serialize, Deserialize, Clone, Debug)]
+pub enum Op {
+    Reseed([Src; 4]),
+    DrawBase,
+    DrawQuad,
+    DrawCube,
+    /// count < 2^log_domain (accepted request)
+    Ints { count: u16, log_domain: u8, nonce: u64 },
+    /// a request the docs refuse (count >= domain, or a domain that is not a power of two): documented panic
+    BadInts { count: u16, domain: u32, nonce: u64 },
+    Pow(u64),
+}
+
+#[derive(Serialize, Deserialize, Clone, Debug)]
+pub struct CoinCase {
+    pub seed: Vec<Src>,
+    pub ops: Vec<Op>,
+    /// selector for the place where a minimally different history deviates
+    pub vsel: u16,
+}
+
+#[derive(Clone, Debug, PartialEq, Eq)]
+pub enum Out {
+    Elem(Vec<u128>),
+    DrawFailed,
+    Ints(Vec<u64>),
+    Pow(u32),
+    DocPanic,
+    None,
+}
+
+pub struct History<B, H> {
+    small_counts: bool,
+    cases_q: u64,
+    cases_t: u64,
+    _p: PhantomData<(B, H)>,
+}
+
+type Coin<H> = DefaultRandomCoin<H>;
+
+fn draw_typed<B: FA, H: HA<B>, E: FieldElement<BaseField = B>>(coin: &mut Coin<H>, what: &str) -> Result<Out, Fail> {
+    let name = H::full_name();
+    let r = catch(|| coin.draw::<E>()).map_err(|p| Fail::new(format!("{what}/{}", pkey(&p)), format!("{name}: {what} panicked: {}", p.msg)))?;
+    match r {
+        Ok(e) => {
+            let el = to_el(&e);
+            let f = ref_field::<E>();
+            let bytes = e.to_bytes();
+            // (iv) canonical serialization, accepted by Deserializable, round trip
+            ensure!(
+                bytes == f.to_le_bytes(&el),
+                format!("{what}/non-canonical-bytes"),
+                "{name}: {what}: drawn element serializes to {:?}, canonical little-endian bytes of its coefficients {:?} are different",
+                bytes,
+                &el[..f.deg]
+            );
+            for c in 0..f.deg {
+                ensure!(el[c] < B::FP.p, format!("{what}/coefficient-range"), "{name}: {what}: coefficient {c} = {} is not below the modulus", el[c]);
+            }
+            let back = E::read_from_bytes(&bytes)
+                .map_err(|err| Fail::new(format!("{what}/deserialize-refused"), format!("{name}: {what}: Deserializable refuses the bytes of a drawn element: {err}")))?;
+            ensure!(back == e && e == back, format!("{what}/roundtrip"), "{name}: {what}: drawn element does not round-trip through its bytes");
+            Ok(Out::Elem(el[..f.deg].to_vec()))
+        },
+        Err(RandomCoinError::FailedToDrawFieldElement(n)) => {
+            ensure!(n == 1000, format!("{what}/tries"), "{name}: {what}: reported {n} tries, documented 1000");
+            Ok(Out::DrawFailed)
+        },
+        Err(e) => Err(Fail::new(format!("{what}/unexpected-error"), format!("{name}: {what}: {e}"))),
+    }
+}
+
+fn apply_real<B: FA, H: HA<B>>(coin: &mut Coin<H>, op: &Op, digest: Option<H::Digest>, obs: &mut Obs) -> Result<Out, Fail> {
+    let name = H::full_name();
+    match op {
+        Op::Reseed(_) => {
+            let d = digest.expect("digest for reseed");
+            catch(|| coin.reseed(d)).map_err(|p| Fail::new(format!("reseed/{}", pkey(&p)), format!("{name}: reseed panicked: {}", p.msg)))?;
+            Ok(Out::None)
+        },
+        Op::DrawBase => draw_typed::<B, H, B>(coin, "draw-base"),
+        Op::DrawQuad => draw_typed::<B, H, Q<B>>(coin, "draw-quad"),
+        Op::DrawCube => {
+            if B::cubic_supported() {
+                draw_typed::<B, H, C<B>>(coin, "draw-cube")
+            } else {
+                Ok(Out::None)
+            }
+        },
+        Op::Ints { count, log_domain, nonce } => {
+            let (count, domain) = (*count as usize, 1usize << *log_domain);
+            let r = catch(|| coin.draw_integers(count, domain, *nonce))
+                .map_err(|p| Fail::new(format!("draw_integers/{}", pkey(&p)), format!("{name}: draw_integers({count}, {domain}, {nonce}) panicked: {}", p.msg)))?;
+            let v = r.map_err(|e| Fail::new("draw_integers/error", format!("{name}: draw_integers({count}, {domain}, {nonce}) failed: {e}")))?;
+            obs.comparisons += 1;
+            // (v) exactly count values, each below the domain size
+            ensure!(v.len() == count, "draw_integers/count", "{name}: draw_integers({count}, {domain}, _) returned {} values", v.len());
+            ensure!(v.iter().all(|x| *x < domain), "draw_integers/range", "{name}: draw_integers({count}, {domain}, _) returned a value outside the domain");
+            Ok(Out::Ints(v.into_iter().map(|x| x as u64).collect()))
+        },
+        Op::BadInts { count, domain, nonce } => {
+            let r = catch(|| coin.draw_integers(*count as usize, *domain as usize, *nonce));
+            ensure!(r.is_err(), "draw_integers/doc-panic-missing", "{name}: draw_integers({count}, {domain}, _) must panic as documented");
+            Ok(Out::DocPanic)
+        },
+        Op::Pow(v) => {
+            let z = catch(|| coin.check_leading_zeros(*v)).map_err(|p| Fail::new(format!("pow/{}", pkey(&p)), format!("{name}: check_leading_zeros panicked: {}", p.msg)))?;
+            Ok(Out::Pow(z))
+        },
+    }
+}
+
+fn apply_ref<B: FA>(coin: &mut RefCoin, op: &Op, digest: Option<&Dg>) -> Out {
+    match op {
+        Op::Reseed(_) => {
+            coin.reseed(digest.expect("digest"));
+            Out::None
+        },
+        Op::DrawBase => coin.draw(1).map(|e| Out::Elem(e[..1].to_vec())).unwrap_or(Out::DrawFailed),
+        Op::DrawQuad => coin.draw(2).map(|e| Out::Elem(e[..2].to_vec())).unwrap_or(Out::DrawFailed),
+        Op::DrawCube => {
+            if B::cubic_supported() {
+                coin.draw(3).map(|e| Out::Elem(e[..3].to_vec())).unwrap_or(Out::DrawFailed)
+            } else {
+                Out::None
+            }
+        },
+        Op::Ints { count, log_domain, nonce } => Out::Ints(coin.draw_integers(*count as usize, 1u64 << *log_domain, *nonce)),
+        Op::BadInts { .. } => Out::DocPanic,
+        Op::Pow(v) => Out::Pow(coin.pow_measure(*v)),
+    }
+}
+
+fn op_is_valid(op: &Op) -> bool {
+    match op {
+        Op::Ints { count, log_domain, .. } => (1..=32).contains(log_domain) && *count >= 1 && *count <= 255 && (*count as u64) < (1u64 << log_domain),
+        Op::BadInts { count, domain, .. } => !domain.is_power_of_two() || *count as u32 >= *domain,
+        _ => true,
+    }
+}
+
+fn tail<B: FA, H: HA<B>>(coin: &mut Coin<H>, obs: &mut Obs) -> Result<Vec<u128>, Fail> {
+    let mut v = vec![];
+    for _ in 0..4 {
+        match draw_typed::<B, H, B>(coin, "draw-base")? {
+            Out::Elem(e) => v.push(e[0]),
+            _ => return Err(Fail::new("tail/draw-failed", format!("{}: a base-field draw failed after 1000 tries", H::full_name()))),
+        }
+    }
+    obs.comparisons += 1;
+    Ok(v)
+}
+
+/// runs a history on a fresh real coin, digests rebuilt canonically; returns the next four base draws
+fn tail_of<B: FA, H: HA<B>>(seed: &[u128], ops: &[Op], digests: &[Option<Dg>], obs: &mut Obs) -> Result<Vec<u128>, Fail> {
+    let s: Vec<B> = seed.iter().map(|v| B::from_u128(*v)).collect();
+    let mut coin = Coin::<H>::new(&s);
+    let mut scratch = Obs::default();
+    for (op, d) in ops.iter().zip(digests) {
+        apply_real::<B, H>(&mut coin, op, d.as_ref().map(|d| H::from_ref(d)), &mut scratch)?;
+    }
+    tail::<B, H>(&mut coin, obs)
+}
+
+fn bump(d: &Dg, p: u128) -> Dg {
+    match d {
+        Dg::Bytes(b) => {
+            let mut b = b.clone();
+            b[0] ^= 1;
+            Dg::Bytes(b)
+        },
+        Dg::Elems(e) => {
+            let mut e = *e;
+            e[0] = (e[0] + 1) % p;
+            Dg::Elems(e)
+        },
+    }
+}
+
+fn op_strategy<B: FA>(small_counts: bool) -> BoxedStrategy<Op> {
+    let count = if small_counts {
+        prop_oneof![
+            15 => 1u16..=8,
+            4 => 1u16..=64,
+            1 => prop::sample::select(vec![127u16, 128, 254, 255]),
+        ]
+        .boxed()
+    } else {
+        prop_oneof![
+            5 => 1u16..=8,
+            4 => 1u16..=255,
+            1 => prop::sample::select(vec![127u16, 128, 254, 255]),
+        ]
+        .boxed()
+    };
+    let nonce = prop_oneof![
+        2 => prop::sample::select(crate::c11::int_classes()),
+        2 => any::<u64>(),
+        1 => 0u64..16,
+    ];
+    let ints = (count, 1u8..=32, nonce, any::<bool>()).prop_map(|(count, lg, nonce, tight)| {
+        // smallest domain that admits the request, or the drawn one if it is larger
+        let need = (16 - (count.leading_zeros() as u8)).max(1); // 2^need > count
+        let log_domain = if tight { need } else { lg.max(need) };
+        Op::Ints { count, log_domain, nonce }
+    });
+    let bad = prop_oneof![
+        (1u32..=8, 0u16..=8).prop_map(|(lg, extra)| Op::BadInts { count: ((1u32 << lg) as u16).saturating_add(extra), domain: 1 << lg, nonce: 0 }),
+        (3u32..1000, 1u16..3).prop_filter("not a power of two", |(d, _)| !d.is_power_of_two()).prop_map(|(domain, count)| Op::BadInts { count, domain, nonce: 1 }),
+    ];
+    let words = [src_strategy::<B>(), src_strategy::<B>(), src_strategy::<B>(), src_strategy::<B>()];
+    prop_oneof![
+        8 => words.prop_map(Op::Reseed),
+        12 => Just(Op::DrawBase),
+        8 => Just(Op::DrawQuad),
+        4 => Just(Op::DrawCube),
+        8 => ints,
+        1 => bad,
+        8 => prop_oneof![prop::sample::select(crate::c11::int_classes()), any::<u64>(), 0u64..64].prop_map(Op::Pow),
+    ]
+    .boxed()
+}
+
+impl<B: FA, H: HA<B> + Sync> SubCheck for History<B, H> {
+    type Case = CoinCase;
+    fn name(&self) -> String {
+        format!("history/{}", H::full_name())
+    }
+    fn cases(&self, tier: Tier) -> u64 {
+        tier.pick(self.cases_q, self.cases_t)
+    }
+    fn watchdog_secs(&self) -> u64 {
+        60
+    }
+    fn rule(&self) -> String {
+        "seed of 0..20 elements (C07's operand sources: boundary residues, non-canonical internal values, uniform) and 1..30 operations from {reseed(digest), draw base / quadratic / cubic, draw_integers(count 1..255 < domain 2^1..2^32, nonce from u64 classes), documented-panic requests (count >= domain, domain not a power of two), check_leading_zeros}; two real coins (given representation / canonical rebuild) and the reference coin step by step; then up to four minimally different histories (seed element +1, reseed digest one bit / one element +1, nonce +1, one extra base draw right before the observed draws) whose next four base draws must differ; non-trivial = at least one reseed and two different draw kinds; distinct by case".into()
+    }
+    fn required_labels(&self, _t: Tier) -> Vec<String> {
+        vec!["variant=seed-element".into(), "variant=reseed-data".into(), "variant=nonce".into(), "variant=extra-draw".into(), "seed-len=0".into()]
+    }
+    fn strategy(&self, _tier: Tier) -> BoxedStrategy<CoinCase> {
+        let seed = prop_oneof![
+            1 => Just(vec![]),
+            8 => prop::collection::vec(src_strategy::<B>(), 0..=20),
+        ];
+        (seed, prop::collection::vec(op_strategy::<B>(self.small_counts), 1..=30), any::<u16>())
+            .prop_map(|(seed, ops, vsel)| CoinCase { seed, ops, vsel })
+            .boxed()
+    }
+    fn check(&self, c: &CoinCase, obs: &mut Obs) -> CheckResult {
+        let name = H::full_name();
+        let r = H::refh();
+        ensure!(c.ops.iter().all(op_is_valid) && c.seed.len() <= 20 && !c.ops.is_empty(), "harness/case", "malformed case");
+        // operands
+        let seed_raw: Vec<B> = c.seed.iter().map(realise::<B>).collect();
+        let seed_res: Vec<u128> = seed_raw.iter().map(|e| e.to_u128()).collect();
+        let seed_canon: Vec<B> = seed_res.iter().map(|v| B::from_u128(*v)).collect();
+        let raw_digests: Vec<Option<H::Digest>> = c.ops.iter().map(|op| if let Op::Reseed(w) = op { Some(digest_from_words::<B, H>(w)) } else { None }).collect();
+        let digests: Vec<Option<Dg>> = raw_digests.iter().map(|d| d.as_ref().map(|d| H::to_ref(d))).collect();
+        obs.label(format!("seed-len={}", if c.seed.is_empty() { "0" } else if c.seed.len() < 8 { "1-7" } else { "8-20" }));
+        let n_reseed = c.ops.iter().filter(|o| matches!(o, Op::Reseed(_))).count();
+        let mut kinds = std::collections::BTreeSet::new();
+        for o in &c.ops {
+            match o {
+                Op::DrawBase => kinds.insert(1),
+                Op::DrawQuad => kinds.insert(2),
+                Op::DrawCube if B::cubic_supported() => kinds.insert(3),
+                Op::Ints { .. } => kinds.insert(4),
+                _ => false,
+            };
+        }
+        obs.nontrivial_if(n_reseed >= 1 && kinds.len() >= 2);
+
+        // (i) + (ii): step by step
+        let mut c1 = Coin::<H>::new(&seed_raw);
+        let mut c2 = Coin::<H>::new(&seed_canon);
+        let mut rc = RefCoin::new(r.clone(), &seed_res);
+        for (i, op) in c.ops.iter().enumerate() {
+            let o1 = apply_real::<B, H>(&mut c1, op, raw_digests[i], obs)?;
+            let o2 = apply_real::<B, H>(&mut c2, op, digests[i].as_ref().map(|d| H::from_ref(d)), obs)?;
+            let or = apply_ref::<B>(&mut rc, op, digests[i].as_ref());
+            obs.comparisons += 2;
+            let what = match op {
+                Op::Reseed(_) => "reseed",
+                Op::DrawBase => "draw-base",
+                Op::DrawQuad => "draw-quad",
+                Op::DrawCube => "draw-cube",
+                Op::Ints { .. } => "draw_integers",
+                Op::BadInts { .. } => "draw_integers-doc-panic",
+                Op::Pow(_) => "pow",
+            };
+            ensure!(o1 == o2, format!("{what}/equal-histories-differ"), "{name}: step {i} ({op:?}): two coins with equal histories returned {o1:?} and {o2:?}");
+            ensure!(o1 == or, format!("{what}/differs-from-reference"), "{name}: step {i} ({op:?}): coin returned {o1:?}, the documented construction gives {or:?}");
+            if o1 == Out::DrawFailed {
+                obs.label("draw-failed-after-1000");
+                ensure!(B::NAME == "f62" && matches!(op, Op::DrawCube), format!("{what}/draw-failed"), "{name}: step {i}: no element after 1000 tries");
+            }
+            if let Op::BadInts { .. } = op {
+                obs.label("doc-panic-request");
+            }
+        }
+        // next four base draws
+        let t1 = tail::<B, H>(&mut c1, obs)?;
+        let t2 = tail::<B, H>(&mut c2, obs)?;
+        let mut tr = vec![];
+        for _ in 0..4 {
+            match rc.draw(1) {
+                Ok(e) => tr.push(e[0]),
+                Err(_) => return Err(Fail::new("harness/ref-tail", "reference tail draw failed")),
+            }
+        }
+        ensure!(t1 == t2, "tail/equal-histories-differ", "{name}: equal histories, different continuations {t1:?} / {t2:?}");
+        ensure!(t1 == tr, "tail/differs-from-reference", "{name}: continuation {t1:?}, reference {tr:?}");
+
+        // (iii) minimally different histories
+        let p = B::FP.p;
+        // a) one seed element changed (or one element appended to an empty seed)
+        {
+            let mut s = seed_res.clone();
+            if s.is_empty() {
+                s.push(0);
+            } else {
+                let j = vf_core::pick_index(c.vsel, s.len());
+                s[j] = (s[j] + 1) % p;
+            }
+            obs.label("variant=seed-element");
+            let t = tail_of::<B, H>(&s, &c.ops, &digests, obs)?;
+            ensure!(t != t1, "variant/seed-element", "{name}: changing one seed element does not change the next four draws");
+        }
+        // b) reseed data changed
+        let reseeds: Vec<usize> = (0..c.ops.len()).filter(|i| matches!(c.ops[*i], Op::Reseed(_))).collect();
+        if !reseeds.is_empty() {
+            let at = reseeds[vf_core::pick_index(c.vsel, reseeds.len())];
+            let mut d2 = digests.clone();
+            d2[at] = Some(bump(digests[at].as_ref().unwrap(), if r.is_rescue() { r.fp.p } else { p }));
+            obs.label("variant=reseed-data");
+            let t = tail_of::<B, H>(&seed_res, &c.ops, &d2, obs)?;
+            ensure!(t != t1, "variant/reseed-data", "{name}: changing the reseed data at step {at} does not change the next four draws");
+        }
+        // c) nonce + 1
+        let ints: Vec<usize> = (0..c.ops.len()).filter(|i| matches!(c.ops[*i], Op::Ints { .. })).collect();
+        if !ints.is_empty() {
+            let at = ints[vf_core::pick_index(c.vsel, ints.len())];
+            let mut ops2 = c.ops.clone();
+            if let Op::Ints { count, log_domain, nonce } = ops2[at].clone() {
+                ops2[at] = Op::Ints { count, log_domain, nonce: if c.vsel & 1 == 0 { nonce.wrapping_add(1) } else { nonce.wrapping_sub(1) } };
+            }
+            obs.label("variant=nonce");
+            let t = tail_of::<B, H>(&seed_res, &ops2, &digests, obs)?;
+            ensure!(t != t1, "variant/nonce", "{name}: changing the nonce at step {at} by one does not change the next four draws");
+        }
+        // d) one extra base draw immediately before the observed draws. (An extra draw placed earlier,
+        // in front of draws of another type, can re-synchronise on fields with rejection sampling: the
+        // first valid quadratic value after counter j is the same for every j below it. That follows
+        // from the documented construction; it is measured with a label, not asserted.)
+        {
+            let mut ops2 = c.ops.clone();
+            let mut d2 = digests.clone();
+            ops2.push(Op::DrawBase);
+            d2.push(None);
+            obs.label("variant=extra-draw");
+            let t = tail_of::<B, H>(&seed_res, &ops2, &d2, obs)?;
+            ensure!(t != t1, "variant/extra-draw", "{name}: one extra base draw before the observed draws does not change them");
+            let last_reset = (0..c.ops.len()).rev().find(|i| matches!(c.ops[*i], Op::Reseed(_) | Op::Ints { .. }));
+            let lo = last_reset.map(|i| i + 1).unwrap_or(0);
+            if lo < c.ops.len() {
+                let at = lo + vf_core::pick_index(c.vsel, c.ops.len() - lo);
+                let mut ops3 = c.ops.clone();
+                let mut d3 = digests.clone();
+                ops3.insert(at, Op::DrawBase);
+                d3.insert(at, None);
+                let t = tail_of::<B, H>(&seed_res, &ops3, &d3, obs)?;
+                obs.label(if t != t1 { "extra-draw-mid-history=changes-continuation" } else { "extra-draw-mid-history=resynchronised" });
+            }
+        }
+        obs.label(format!("len={}", if c.ops.len() < 10 { "1-9" } else if c.ops.len() < 20 { "10-19" } else { "20-30" }));
+        Ok(())
+    }
+}
+
+fn h<B: FA, H: HA<B>>(small_counts: bool, cases_q: u64, cases_t: u64) -> History<B, H> {
+    History { small_counts, cases_q, cases_t, _p: PhantomData }
+}
+
+pub fn run(run: &mut Run) {
+    run.assume("reference coin: documented construction (seed = hash_elements(seed elements); value = hash(seed || ++counter); reseed = hash(seed || data), counter 0; integers = first 8 bytes little-endian masked to the domain) on the reference hashers of C11");
+    run.assume("proof-of-work measure as implemented and used by prover and verifier: trailing zero bits of the first 8 digest bytes read little-endian (the doc comment words it as leading zeros of a big-endian integer; both sides of the protocol call the same function)");
+    run.assume("32-byte view of an element digest: little-endian packing of the four residues at the field's bit width (64 bits for f64, 62 bits for f62 = 248 bits + a zero byte)");
+    run.assume("no hash collisions among generated inputs; 'outputs differ' compares four base-field draws (>= 247 bits)");
+    for (what, r) in [
+        ("field", vf_ref::field::selfcheck()),
+        ("rescue", vf_ref::rescue::selfcheck()),
+        ("hashes", vf_ref::hashes::selfcheck()),
+    ] {
+        if let Err(e) = r {
+            run.inconclusive(format!("reference self-check failed ({what}): {e}"));
+            return;
+        }
+    }
+    run.sub(&h::<B62, Blake3_256<B62>>(false, 12_000, 300_000));
+    run.sub(&h::<B64, Blake3_256<B64>>(false, 12_000, 300_000));
+    run.sub(&h::<B128, Blake3_256<B128>>(false, 12_000, 300_000));
+    run.sub(&h::<B62, Blake3_192<B62>>(false, 12_000, 300_000));
+    run.sub(&h::<B64, Blake3_192<B64>>(false, 12_000, 300_000));
+    run.sub(&h::<B128, Blake3_192<B128>>(false, 12_000, 300_000));
+    run.sub(&h::<B62, Sha3_256<B62>>(false, 12_000, 300_000));
+    run.sub(&h::<B64, Sha3_256<B64>>(false, 12_000, 300_000));
+    run.sub(&h::<B128, Sha3_256<B128>>(false, 12_000, 300_000));
+    run.sub(&h::<B64, Rp64_256>(true, 2_500, 60_000));
+    run.sub(&h::<B64, RpJive64_256>(true, 2_500, 60_000));
+    run.sub(&h::<B62, Rp62_248>(true, 1_200, 30_000));
+}
+
+#[allow(dead_code)]
+fn _x(_: X) {}
